@@ -57,7 +57,7 @@ func (ri RawInstruction) Disassemble() Instruction {
 			}
 			return LoadScratch{Dst: reg, N: int(ri.K)}
 		case opAddrModeAbsolute:
-			if ri.K > extOffset+0xffffffff {
+			if sz == 4 && ri.K > extOffset+0xffffffff {
 				return LoadExtension{Num: Extension(-extOffset + ri.K)}
 			}
 			return LoadAbsolute{Size: sz, Off: ri.K}
